@@ -1441,3 +1441,145 @@ example : let ops : List (Op Int) := [.leaf (scalingLeaf 2), .leaf (scalingLeaf 
     · have := vs 1 (.leaf (scalingLeaf 3)) rfl
       simp only [s] at this
       rw [this]; simp [den, scalingLeaf]
+
+/-- UNCONDITIONAL call protocol of the round-4 `default_ops.py` leaves (no leaf contract left
+as a hypothesis — it is proved above): for `ZeroOperator` with `domain != range`,
+`MultiplyOperator` with a scalar multiplicand, `ImagPart` and `ComplexModulus` on a real space,
+the public `op(x)` returns an object holding the leaf's value and writes no existing object;
+`op(x, out=y)` returns the very `y` holding the same value whatever it held (for the two
+out-of-place-only classes through `_default_call_in_place`), and writes nothing else. -/
+theorem C03.round4_leaves_call_protocol {K : Type} [Add K] [Mul K] [OfNat K 0] (hK : CommArith K)
+    (isz : K → Bool) (jk0 : Nat → Vec K) (c : K) (sq : K → K) (l : Leaf K)
+    (hl : l = zeroDiffLeaf ∨ l = multScalarLeaf isz jk0 c ∨ l = imagLeaf ∨ l = cmodLeaf sq)
+    (jk jk' : Nat → Vec K) (s : St K) (x y : Nat) (hx : x < s.next) (hy : y < s.next) :
+    (∃ r s1, call jk (.leaf l) (.inDomain x) .none s = .ok r s1 ∧
+        s1.mem r = l.phi (s.mem x) ∧ ∀ b : Nat, b < s.next → s1.mem b = s.mem b) ∧
+    (∃ s2, call jk' (.leaf l) (.inDomain x) (.inRange y) s = .ok y s2 ∧
+        s2.mem y = l.phi (s.mem x) ∧ (x ≠ y → s2.mem x = s.mem x) ∧
+        ∀ b : Nat, b < s.next → b ≠ y → s2.mem b = s.mem b) := by
+  have hok : LeafOK l := by
+    rcases hl with rfl | rfl | rfl | rfl
+    · exact C03.zero_diff_leaf_ok
+    · exact C03.mult_scalar_leaf_ok _ _ _
+    · exact C03.imag_leaf_ok
+    · exact C03.cmod_leaf_ok _
+  have hfn : l.fn = false := by
+    rcases hl with rfl | rfl | rfl | rfl <;> rfl
+  exact C03.call_protocol hK jk jk' (.leaf l) hok hfn s x y hx hy
+
+/-- UNCONDITIONAL public call of a functional / field-range class whose `_call(self, x)` returns
+a scalar computed from `x` (`funcLeaf f`: `InnerProductOperator`, `NormOperator`,
+`DistOperator`, and `PowerOperator` / `MultiplyOperator` on a FIELD domain, where `x` itself
+is a scalar; all five run by the `leaf` / `tree` streams), for every `f`: `op(x)` returns a new
+value `f(x)` and writes no existing object; an `x` that has to be cast gives the value of the
+cast input; ANY `out` is refused before the body runs and with the store untouched — an `out`
+in the range (a number) with `TypeError`, anything else with `OpRangeError`; an uncastable `x`
+with `OpDomainError`. The result is never written into `out`. (Holds by unfolding the model
+of `__call__` on this concrete leaf — no arithmetic law and no contract is used; its content
+is the tie of `call` / `funcLeaf` to the code by the dispatch and leaf streams.) -/
+theorem C03.field_range_call {K : Type} [Add K] [Mul K] [OfNat K 0]
+    (jk : Nat → Vec K) (f : Vec K → K) (s : St K) (x : Nat) :
+    (∃ r s1, call jk (.leaf (funcLeaf f)) (.inDomain x) .none s = .ok r s1 ∧ s.next ≤ r ∧
+        s1.mem r = (fun _ => f (s.mem x)) ∧ ∀ b : Nat, b < s.next → s1.mem b = s.mem b) ∧
+    (∀ v : Vec K, ∃ r s1, call jk (.leaf (funcLeaf f)) (.castable v) .none s = .ok r s1 ∧
+        s1.mem r = (fun _ => f v) ∧ ∀ b : Nat, b < s.next → s1.mem b = s.mem b) ∧
+    (∀ y, call jk (.leaf (funcLeaf f)) (.inDomain x) (.inRange y) s = .err .type s) ∧
+    call jk (.leaf (funcLeaf f)) (.inDomain x) .foreign s = .err .range s ∧
+    (∀ o, call jk (.leaf (funcLeaf f)) .bad o s = .err .domain s) := by
+  refine ⟨?_, fun v => ?_, fun y => by simp [call, Op.fn, funcLeaf], rfl, fun o => rfl⟩
+  · simp only [call, callO, funcLeaf, alloc]
+    exact ⟨_, _, rfl, le_refl _, by simp, fun b hb => by simp; intro h; omega⟩
+  · simp only [call, callO, funcLeaf, alloc]
+    refine ⟨_, _, rfl, by simp, fun b hb => ?_⟩
+    have h0 : b ≠ s.next := by omega
+    have h1 : b ≠ s.next + 1 := by omega
+    simp [h0, h1]
+
+example : ∃ r s1, call (fun _ _ => (99 : Int)) (.leaf (funcLeaf fun v => v 0 * v 0 + v 1))
+    (.inDomain 0) .none ⟨fun _ i => if i = 0 then 3 else 4, 1⟩ = .ok r s1 ∧ s1.mem r 0 = 13 := by
+  obtain ⟨r, s1, e1, _, v1, _⟩ := (C03.field_range_call
+    (fun _ _ => (99 : Int)) (fun v => v 0 * v 0 + v 1) ⟨fun _ i => if i = 0 then 3 else 4, 1⟩ 0).1
+  exact ⟨r, s1, e1, by rw [v1]; simp⟩
+
+/-- `ComponentProjection` with a LIST index `[i_0, …, i_{p-1}]` (`compProjListO/I`, executed by
+`pso kind=projl`): `op(x)` returns a tuple of `p` NEW objects, component `k` holding `x[i_k]`
+(repeated indices allowed), and writes no existing object — although `x[index]` shares the
+components of `x`; `op(x, out=y)`, `y` a tuple of distinct objects none of which is a
+component of `x`, leaves `x[i_k]` in `y_k` whatever `y` held, and writes nothing else. -/
+theorem C03.component_projection_list {K : Type} (idx : List Nat) (x y : Nat → Nat) (s : St K)
+    (hx : ∀ i ∈ idx, x i < s.next)
+    (hyinj : ∀ a b : Nat, y a = y b → a = b) (hdis : ∀ (k : Nat), ∀ i ∈ idx, y k ≠ x i) :
+    ((compProjListO idx x s).next = s.next + idx.length ∧
+      (∀ (k i : Nat), idx[k]? = some i → (compProjListO idx x s).mem (s.next + k) = s.mem (x i)) ∧
+      ∀ b : Nat, b < s.next → (compProjListO idx x s).mem b = s.mem b) ∧
+    ((∀ (k i : Nat), idx[k]? = some i → (compProjListI idx 0 x y s).mem (y k) = s.mem (x i)) ∧
+      ∀ b : Nat, (∀ k : Nat, k < idx.length → b ≠ y k) →
+        (compProjListI idx 0 x y s).mem b = s.mem b) := by
+  constructor
+  · clear hyinj hdis
+    induction idx generalizing s with
+    | nil => exact ⟨rfl, fun k i h => by simp at h, fun _ _ => rfl⟩
+    | cons i r ih =>
+      obtain ⟨s0, ea, hn0, hv0, hf0⟩ := alloc_spec s (s.mem (x i))
+      have hx0 : ∀ i' ∈ r, x i' < s0.next := fun i' hi' => by
+        have := hx i' (by simp [hi']); omega
+      obtain ⟨n1, v1, f1⟩ := ih s0 hx0
+      simp only [compProjListO, ea]
+      refine ⟨by rw [n1, hn0]; simp only [List.length_cons]; omega, ?_, ?_⟩
+      · intro k i' hk
+        cases k with
+        | zero =>
+          simp only [List.getElem?_cons_zero, Option.some.injEq] at hk
+          subst hk
+          rw [Nat.add_zero, f1 s.next (by omega), hv0]
+        | succ k =>
+          simp only [List.getElem?_cons_succ] at hk
+          have hmem : i' ∈ r := List.mem_of_getElem? hk
+          have := v1 k i' hk
+          rw [hn0] at this
+          rw [show s.next + (k + 1) = s.next + 1 + k by omega, this,
+            hf0 _ (by have := hx i' (by simp [hmem]); omega)]
+      · intro b hb; rw [f1 b (by omega), hf0 b (by omega)]
+  · suffices h : ∀ (k0 : Nat) (s : St K),
+        (∀ (k i : Nat), idx[k]? = some i → (compProjListI idx k0 x y s).mem (y (k0 + k)) = s.mem (x i)) ∧
+        ∀ b : Nat, (∀ k : Nat, k < idx.length → b ≠ y (k0 + k)) →
+          (compProjListI idx k0 x y s).mem b = s.mem b by
+      have := h 0 s
+      simpa using this
+    clear hx
+    induction idx with
+    | nil => intro k0 s; exact ⟨fun k i h => by simp at h, fun _ _ => rfl⟩
+    | cons i r ih =>
+      intro k0 s
+      obtain ⟨v1, f1⟩ := ih (fun k i' hi' => hdis k i' (by simp [hi'])) (k0 + 1)
+        (s.write (y k0) (s.mem (x i)))
+      simp only [compProjListI]
+      refine ⟨?_, ?_⟩
+      · intro k i' hk
+        cases k with
+        | zero =>
+          simp only [List.getElem?_cons_zero, Option.some.injEq] at hk
+          subst hk
+          show (compProjListI r (k0 + 1) x y _).mem (y k0) = _
+          rw [f1 (y k0) (fun k _ h => by have := hyinj _ _ h; omega), write_mem_same]
+        | succ k =>
+          simp only [List.getElem?_cons_succ] at hk
+          have hmem : i' ∈ r := List.mem_of_getElem? hk
+          rw [show k0 + (k + 1) = k0 + 1 + k by omega, v1 k i' hk,
+            write_mem_other _ _ _ _ (fun h => hdis k0 i' (by simp [hmem]) h.symm)]
+      · intro b hb
+        rw [f1 b (fun k hk => by
+          have := hb (k + 1) (by simp only [List.length_cons]; omega)
+          rwa [show k0 + (k + 1) = k0 + 1 + k by omega] at this),
+          write_mem_other _ _ _ _ (by have := hb 0 (by simp); simpa using this)]
+
+/-- Non-vacuity: projecting x = (5, 7, 9) on `[2, 0]` in place into y = (buffers 3, 4). -/
+example : let s : St Int := ⟨fun b _ => if b = 0 then 5 else if b = 1 then 7 else if b = 2 then 9 else 1000, 5⟩
+    (compProjListI [2, 0] 0 (fun j => j) (fun k => 3 + k) s).mem 3 0 = 9 ∧
+    (compProjListI [2, 0] 0 (fun j => j) (fun k => 3 + k) s).mem 4 0 = 5 := by
+  intro s
+  have h := (C03.component_projection_list [2, 0] (fun j => j) (fun k => 3 + k) s
+    (fun i hi => by simp at hi; rcases hi with rfl | rfl <;> simp [s])
+    (fun a b h => by omega) (fun k i hi => by simp at hi; rcases hi with rfl | rfl <;> omega)).2.1
+  exact ⟨by have := h 0 2 rfl; simp only [Nat.add_zero] at this; rw [this]; simp [s],
+    by have := h 1 0 rfl; rw [this]; simp [s]⟩
